@@ -40,9 +40,10 @@ int main(int argc, char **argv) {
   err |= proxy->set_unit_system("real", false);
   if (T > 0.0) proxy->set_target_temperature(T);
   if (out.size()) err |= proxy->set_output_prefix(out);
-  if (in.size()) err |= proxy->set_input_prefix(in);
+  // the state is loaded after the configuration has been read (below)
   err |= proxy->colvars->setup_input();
   err |= proxy->colvars->setup_output();
+  if (in.size()) err |= proxy->set_input_prefix(in);
   if (conf.size()) err |= proxy->colvars->read_config_file(conf.c_str());
   for (auto &s : pre) script(s);
   if (in.size()) err |= proxy->colvars->setup_input();
